@@ -631,6 +631,13 @@ func (req *Request) Process(store StorageClient, stat *Stats) (resp *Response, e
 		resp = nil
 
 	default:
+		// verbs that Read parses (and accounts for) but that are not served
+		if req.Cmd == "prepend" && req.Item != nil {
+			cmem.DBRL.SetData.SubSizeAndCount(req.Item.CArray.Cap)
+			req.Item.CArray.Free()
+		} else if req.Cmd == "decr" {
+			cmem.DBRL.SetData.SubCount(1)
+		}
 		resp = nil
 		logger.Errorf("Should not reach here, req.Cmd: %s", req.Cmd)
 	}
